@@ -12,9 +12,9 @@ from common import (REPLAY_DIR, VERIF, Inconclusive, Scratch, load_known_finding
 VT = "python3-vt"
 
 FAMILIES_OF = {
-    "C01": ["plain", "full", "wide", "hints", "hard", "deep", "lazycon"],
-    "C02": ["plain", "full", "wide", "hints", "hard", "deep", "lazycon"],
-    "C03": ["plain", "full", "wide", "hints", "hard", "deep", "lazycon"],
+    "C01": ["plain", "full", "wide", "hints", "hard", "deep", "lazycon", "tiny"],
+    "C02": ["plain", "full", "wide", "hints", "hard", "deep", "lazycon", "tiny"],
+    "C03": ["plain", "full", "wide", "hints", "hard", "deep", "lazycon", "tiny"],
     "C04": ["plain", "full", "wide", "hints", "soft", "softx", "reuse", "deep", "lazycon"],
     "C05": ["plain", "full", "hints", "soft", "softx", "softloop", "hard", "deep", "lazycon"],
     "C07": ["plain", "full", "wide", "hard", "deep", "lazycon"],
@@ -89,7 +89,7 @@ def sweep(bins, prop, tier, seed, families=None, n=None, only_ids=None):
     family, and returns the merged JSON summary."""
     import concurrent.futures as cf
     base = {"prop": prop, "families": families or FAMILIES_OF[prop], "n": n or SIZES[tier], "seed": seed,
-            "bins": bins, "only_ids": only_ids}
+            "bins": bins, "only_ids": only_ids, "tier": tier}
     k = max(1, SHARDS)
 
     def one(i):
@@ -153,6 +153,8 @@ def coverage_of(summary):
         "cert_families": summary["families"],
         "cert_profiles": summary["profiles"],
         "cert_relevant_universes": summary["relevant"],
+        "cert_exhaustive_families": (["tiny: ALL %d universes with 2 packages x 2 candidates, <= 1 requirement and <= 1 constrains entry per solvable on the other package, one root requirement" % summary["families"]["tiny"]]
+                                     if summary["families"].get("tiny", 0) >= 196608 else []),
         "cert_queries_re_asked_to_cvc5": summary.get("cvc5_cross_checked", 0),
     }
 
